@@ -59,27 +59,27 @@ def random_scenario(rng):
 # (scenario, pre-emption bound quick, bound thorough, cap thorough)
 FIXED_SCENARIOS = [
     # stop_current racing with completion
-    ({'clients': [[('add', 1)], [('stopcur', None)]], 'jobs': {1: ('fin', 0)}}, 2, 3, 60000),
+    ({'clients': [[('add', 1)], [('stopcur', None)]], 'jobs': {1: ('fin', 0)}}, 2, 3, 25000),
     # clear racing with the start of a job
-    ({'clients': [[('add', 1)], [('clear', None)]], 'jobs': {1: ('fin', 0)}}, 2, 3, 60000),
+    ({'clients': [[('add', 1)], [('clear', None)]], 'jobs': {1: ('fin', 0)}}, 2, 3, 25000),
     # stop_job on a background job that waits to be stopped; has_jobs
     ({'clients': [[('spawn', 1), ('stopjob', 1)], [('has', None)]], 'jobs': {1: ('block', 0)}},
-     2, 3, 60000),
+     2, 3, 25000),
     # is_running racing with a background job
-    ({'clients': [[('spawn', 1)], [('isrun', 1)]], 'jobs': {1: ('fin', 0)}}, 2, 3, 60000),
+    ({'clients': [[('spawn', 1)], [('isrun', 1)]], 'jobs': {1: ('fin', 0)}}, 2, 3, 25000),
     # completion racing with an add (the window after `_active_agent = None`); first job raises
     ({'clients': [[('add', 1)], [('add', 2)]], 'jobs': {1: ('raise', 0), 2: ('fin', 0)}}, 1, 2, None),
     # completion racing with a front insert
     ({'clients': [[('add', 1)], [('insert', 2)]], 'jobs': {1: ('fin', 0), 2: ('fin', 0)}}, 1, 2, None),
     # two adds racing with a front insert; the first job raises
     ({'clients': [[('add', 1), ('add', 2)], [('insert', 3)]],
-     'jobs': {1: ('raise', 0), 2: ('fin', 0), 3: ('fin', 0)}}, 1, 2, 40000),
+     'jobs': {1: ('raise', 0), 2: ('fin', 0), 3: ('fin', 0)}}, 1, 2, 30000),
     # clear racing with the start of the next job
     ({'clients': [[('add', 1), ('add', 2)], [('clear', None)]],
-     'jobs': {1: ('fin', 0), 2: ('fin', 0)}}, 1, 2, 40000),
+     'jobs': {1: ('fin', 0), 2: ('fin', 0)}}, 1, 2, 30000),
     # background job alongside the queue
     ({'clients': [[('spawn', 1), ('isrun', 1)], [('add', 2)]],
-     'jobs': {1: ('fin', 0), 2: ('fin', 0)}}, 1, 2, 40000),
+     'jobs': {1: ('fin', 0), 2: ('fin', 0)}}, 1, 2, 30000),
 ]
 
 
@@ -230,17 +230,19 @@ class Run:
                 s.add_thread('c{}'.format(i), self.client(i, prog))
             self.result = s.run()
             res = self.result
+            # an internal error escaping a controller call (or a thread of the controller)
+            for tid, ex in res.exceptions.items():
+                if isinstance(ex, JobError) and tid.startswith('J'):
+                    continue
+                self.problem('controller-call-raises',
+                             '{} escaped from thread {}: {}'.format(type(ex).__name__, tid, ex))
             if res.deadlock:
                 self.problem('deadlock', 'no thread can run: {}'.format(res.blocked))
             elif res.aborted:
                 raise InfraError('run cut off after {} steps'.format(len(res.steps)))
-            else:
+            elif not any(t.startswith('c') for t in res.exceptions):
+                # (a client that died did not issue its remaining calls: nothing more to check)
                 self.final_checks()
-        for tid, ex in res.exceptions.items():
-            if isinstance(ex, JobError) and tid.startswith('J'):
-                continue
-            self.problem('controller-call-raises',
-                         '{} escaped from thread {}: {}'.format(type(ex).__name__, tid, ex))
         return self
 
     # -------------------------------------------------------- after every step
